@@ -180,14 +180,14 @@ structure Ctx where
 def Ctx.aoMask (c : Ctx) : BitVec 32 := if c.mode64 then 0x80#32 else 0x40#32
 def Ctx.hasBcst (c : Ctx) : Bool := c.bcstSize != 0
 
-def isInt8 (v : BitVec 32) : Bool := v.toInt ≥ -128 && v.toInt ≤ 127
-def isInt32of64 (v : BitVec 64) : Bool := v.toInt ≥ -2147483648 && v.toInt ≤ 2147483647
+def isInt8 (v : BitVec 32) : Bool := (0xFFFFFF80#32).sle v && v.sle 0x7F#32
+def isInt32of64 (v : BitVec 64) : Bool := (0xFFFFFFFF80000000#64).sle v && v.sle 0x7FFFFFFF#64
 
 /-- the disp8 / disp32 choice shared by the [BASE(+INDEX)+DISP] paths:
 `cd_offset = rel_offset >> cd_shift; is_int_n<8>(cd_offset) && rel_offset == int32(uint32(cd_offset) << cd_shift)` -/
 def cdisp8 (relOffset : BitVec 32) (cdShift : BitVec 32) : Option (BitVec 32) :=
-  let cd := relOffset.sshiftRight cdShift.toNat
-  if isInt8 cd && relOffset == (cd <<< cdShift.toNat) then some cd else none
+  let cd := relOffset.sshiftRight' cdShift
+  if isInt8 cd && relOffset == (cd <<< cdShift) then some cd else none
 
 def cdShiftOf (opcode : BitVec 32) : BitVec 32 := (opcode &&& kCDSHL_Mask) >>> 13
 
